@@ -314,3 +314,80 @@ def check_nonsep(cfg, sizes, rnd):
         torch.set_default_dtype(old)
     ok, det = _close(a.numpy(), b.numpy())
     return ok, '%s2d_nonsep vs %s2d mode=%s nf=%d HxW=%dx%d L=%d,%d: %s' % (kind, kind, mode, nf, H, W, wc.dec_len, wr.dec_len, det)
+
+
+@register('dwt_pr')
+def check_dwt_pr(cfg, sizes, rnd):
+    """inverse(forward(x)) == x on the original extent; error compared with PyWavelets' own"""
+    from pytorch_wavelets.dwt.transform1d import DWT1DForward, DWT1DInverse
+    from pytorch_wavelets.dwt.transform2d import DWTForward, DWTInverse
+    import warnings
+    warnings.simplefilter('ignore')
+    dim, mode = cfg['dim'], cfg['mode']
+    name = cfg.get('wave')
+    w = pywt.Wavelet(name) if name else _wave(sizes.get('Lc2', sizes.get('L2', 2)))
+    J = _sz(sizes, 'J', 2, 1, 4)
+    m = _mode(mode)
+    rs = np.random.RandomState(rnd.randint(0, 10**6))
+    if dim == 1:
+        N = _sz(sizes, 'N', 9, 2, 64)
+        x = torch.tensor(rs.randn(1, 2, N))
+        F_, I_ = DWT1DForward, DWT1DInverse
+        ref = lambda a: pywt.waverec(pywt.wavedec(a, w, mode=m, level=J, axis=-1), w, mode=m, axis=-1)
+        crop = lambda y: y[..., :N]
+    else:
+        H, W = _sz(sizes, 'H', 9, 2, 40), _sz(sizes, 'W', 6, 2, 40)
+        x = torch.tensor(rs.randn(1, 2, H, W))
+        F_, I_ = DWTForward, DWTInverse
+        ref = lambda a: pywt.waverec2(pywt.wavedec2(a, w, mode=m, level=J, axes=(-2, -1)), w, mode=m, axes=(-2, -1))
+        crop = lambda y: y[..., :H, :W]
+    try:
+        yl, yh = build64(F_, J=J, wave=w, mode=mode)(x)
+    except Exception as e:
+        return True, 'forward raises (%s): outside the property (reflect mode / signal shorter than filter)' % type(e).__name__
+    try:
+        y = build64(I_, wave=w, mode=mode)((yl, yh))
+    except Exception as e:
+        return False, 'inverse raises on the forward output: %s: %s' % (type(e).__name__, e)
+    for a, b in zip(y.shape[2:], x.shape[2:]):
+        if a not in (b, b + 1):
+            return False, 'extent %s for input %s' % (tuple(y.shape), tuple(x.shape))
+    err = float((crop(y) - x).abs().max())
+    try:
+        perr = float(np.abs(crop(torch.tensor(ref(x.numpy()))).numpy() - x.numpy()).max())
+    except ValueError:
+        perr = None
+    tol = 1e-9 if w.short_family_name != 'dmey' else None
+    if tol is not None:
+        ok = err <= tol
+    else:
+        ok = perr is None or err <= 1.01 * perr + 1e-12
+    return ok, 'PR dim=%d %s %s J=%d shape=%s: err %.3g (pywt %s)' % (dim, mode, w.name, J, tuple(x.shape), err, perr)
+
+
+@register('dwt_orth')
+def check_dwt_orth(cfg, sizes, rnd):
+    """orthogonal wavelet + periodization, every level even and >= L: energy preserved and inverse(g) == backprop(g)"""
+    from pytorch_wavelets.dwt.transform1d import DWT1DForward, DWT1DInverse
+    from pytorch_wavelets.dwt.transform2d import DWTForward, DWTInverse
+    dim = cfg['dim']
+    w = pywt.Wavelet(cfg['wave']) if cfg.get('wave') else _wave(sizes.get('L2', 2))
+    J = _sz(sizes, 'J', 2, 1, 3)
+    mult = _sz(sizes, 'm', 1, 1, 4)
+    N = (w.dec_len + 2 * mult) // 2 * 2 * 2 ** (J - 1)
+    rs = np.random.RandomState(rnd.randint(0, 10**6))
+    shp = (1, 2, N) if dim == 1 else (1, 2, N, N + 2 ** J)
+    x = torch.tensor(rs.randn(*shp), requires_grad=True)
+    F_, I_ = (DWT1DForward, DWT1DInverse) if dim == 1 else (DWTForward, DWTInverse)
+    fwd = build64(F_, J=J, wave=w, mode='periodization')
+    inv = build64(I_, wave=w, mode='periodization')
+    yl, yh = fwd(x)
+    e_in = float((x ** 2).sum())
+    e_out = float((yl ** 2).sum() + sum((h ** 2).sum() for h in yh))
+    if abs(e_in - e_out) > 1e-9 * e_in:
+        return False, 'energy %g -> %g (%s, N=%d, J=%d)' % (e_in, e_out, w.name, N, J)
+    gl = torch.tensor(rs.randn(*yl.shape))
+    gh = [torch.tensor(rs.randn(*h.shape)) for h in yh]
+    (yl * gl).sum().__add__(sum((h * g).sum() for h, g in zip(yh, gh))).backward()
+    ok, det = _close(inv((gl, gh)).detach().numpy(), x.grad.numpy(), 1e-9)
+    return ok, 'orth dim=%d %s N=%d J=%d: inverse(g) vs backprop(g): %s' % (dim, w.name, N, J, det)
